@@ -5,7 +5,15 @@ Domain: generated duplex *sessions* on the E2 bench (vlib.pkt): a plaintext segm
 and at most one authentication event (delayed zlib@openssh.com), with messages in both
 directions in every segment (type byte 0..255, body 0..69 999 bytes, dense around block
 boundaries); strict-kex flag; server EXT_INFO after NEWKEYS; generated recv() fragment sizes.
-Keys are installed through Transport._set_K_H / _activate_outbound / _parse_newkeys.
+Keys are installed through Transport._set_K_H / _activate_outbound / _parse_newkeys; the two
+directions of every key exchange get independently generated suites (RFC 4253 7.1), and every
+paramiko receiver is keyed in both directions.
+
+Socket behaviour: besides short reads, the scripted socket raises socket.timeout / EAGAIN
+between fragments at generated positions (paramiko always runs its socket with a timeout), and
+the receiving Packetizer gets generated lowered REKEY_PACKETS / REKEY_BYTES (public
+``packetizer_class`` kwarg) so that a re-key becomes pending through the production counters
+while the stream goes on; the reader reacts to NeedRekeyException like Transport.run (retry).
 
 Oracles: (pp) paramiko client <-> paramiko server: every receiver delivers exactly the sent
 (type, body) list, consumes every byte, then hits EOF; (p2ref) the same wire bytes decode to
@@ -25,10 +33,18 @@ RULE = (
     "hypothesis-generated duplex sessions: plain segment + 1-4 rekey segments (cipher x MAC x compression per "
     "direction, kex hash, K 1-8192 bit, H 20-64 bytes) + optional auth event, 0-N messages per segment and direction "
     "(body lengths dense at 0-99, 254-259, 32758-32776, 65529-69999, uniform to 69999), strict-kex, EXT_INFO, recv "
-    "fragment lists; each session is run paramiko<->paramiko (+reference receivers on the same bytes) and reference "
+    "fragment lists; c2s and s2c suites of every key exchange are drawn independently (classes asymmetric-suites / "
+    "asymmetric-style:<in>/<out> / asymmetric-mac-size), every paramiko receiver also activates its outbound keys; "
+    "per receiver a generated timeout script (socket.timeout / EAGAIN raised between fragments: classes "
+    "timeout-inside-packet, timeout-inside-first-block, timeout-between-length-and-body) and generated lowered "
+    "REKEY_PACKETS (1-6) / REKEY_BYTES (1-4000) via packetizer_class, so that need_rekey() is pending while later "
+    "packets are read (classes rekey-pending-while-reading, timeout-inside-packet+rekey-pending) and "
+    "NeedRekeyException is answered by retrying like Transport.run; each session is run paramiko<->paramiko "
+    "(+reference receivers on the same bytes) and reference "
     "senders->paramiko receivers; thorough shards the full cipher x MAC x compression product over the workers. "
-    "non-trivial = >=2 messages and (a recv returned less than requested inside a packet, or >=2 key switches, or "
-    "compression active, or a payload longer than one cipher block); distinct by SHA-1 of the session"
+    "non-trivial = >=2 messages and (a recv returned less than requested inside a packet, or a timeout fell inside a "
+    "packet, or >=2 key switches, or compression active, or a payload longer than one cipher block); distinct by "
+    "SHA-1 of the session"
 )
 
 FINDING_STALE = "stale-compressor-after-rekey"
@@ -102,6 +118,12 @@ def case_strategy(tier_quick, first_c2s=None, exclude_stale=True):
             "ext_info": st.sampled_from([False, False, False, True]),
             "frags_c": S.frags,
             "frags_s": S.frags,
+            "timeouts_c": S.timeouts,
+            "timeouts_s": S.timeouts,
+            "rekey_packets_c": S.rekey_packets,
+            "rekey_packets_s": S.rekey_packets,
+            "rekey_bytes_c": S.rekey_bytes,
+            "rekey_bytes_s": S.rekey_bytes,
             "pad_extra": st.lists(st.integers(0, 3), max_size=4),
             "flush": st.sampled_from(["partial", "partial", "sync", "full"]),
             "segs": segs(),
@@ -141,6 +163,7 @@ def _classes(case):
             continue
         rekeys += 1
         out.add("hash:" + seg["keys"]["hash"])
+        out.update(pkt.asymmetry_classes(seg["keys"]))
         for d in ("c2s", "s2c"):
             c, m, z = seg["keys"][d]
             out.add("cipher:" + c)
@@ -166,8 +189,17 @@ def execute(ctx, case):
     short_reads = 0
     messages = 0
     max_payload = 0
-    pc = pkt.PPeer("client", strict, case["frags_c"])
-    ps = pkt.PPeer("server", strict, case["frags_s"], ext_info=case["ext_info"])
+    sock_c = dict(timeouts=case.get("timeouts_c", ()), rekey_packets=case.get("rekey_packets_c"), rekey_bytes=case.get("rekey_bytes_c"))
+    sock_s = dict(timeouts=case.get("timeouts_s", ()), rekey_packets=case.get("rekey_packets_s"), rekey_bytes=case.get("rekey_bytes_s"))
+    pc = pkt.PPeer("client", strict, case["frags_c"], **sock_c)
+    ps = pkt.PPeer("server", strict, case["frags_s"], ext_info=case["ext_info"], **sock_s)
+    stats = {}
+
+    def collect(*peers):
+        for p in peers:
+            for k, v in p.stats.items():
+                stats[k] = stats.get(k, 0) + v
+
     try:
         # session A: paramiko <-> paramiko, reference receivers listening on the same bytes
         rc = pkt.RPeer("client", strict)
@@ -183,8 +215,8 @@ def execute(ctx, case):
         if failure is None:
             auto = ps.auto_after_newkeys()
             flush = FLUSH[case["flush"]]
-            pc2 = pkt.PPeer("client", strict, case["frags_s"])
-            ps2 = pkt.PPeer("server", strict, case["frags_c"])
+            pc2 = pkt.PPeer("client", strict, case["frags_s"], **sock_s)
+            ps2 = pkt.PPeer("server", strict, case["frags_c"], **sock_c)
             rc2 = pkt.RPeer("client", strict, case["pad_extra"], flush)
             rs2 = pkt.RPeer("server", strict, case["pad_extra"], flush, auto=auto)
             try:
@@ -194,18 +226,33 @@ def execute(ctx, case):
             except pkt.SessionFailed as e:
                 failure = e
             finally:
+                collect(pc2, ps2)
                 pc2.close()
                 ps2.close()
     finally:
+        collect(pc, ps)
         pc.close()
         ps.close()
     classes, rekeys, comp_on = _classes(case)
     if short_reads:
         classes.add("short-read-inside-packet")
+    for k in (
+        "timeout-inside-packet",
+        "timeout-inside-first-block",
+        "timeout-between-length-and-body",
+        "timeout-inside-packet+rekey-pending",
+        "timeout-inside-first-block+rekey-pending",
+    ):
+        if stats.get(k):
+            classes.add(k)
+    if stats.get("msgs-read-with-rekey-pending"):
+        classes.add("rekey-pending-while-reading")
+    if stats.get("rekey-signals"):
+        classes.add("need-rekey-exception-retried")
     if max_payload > 32768:
         classes.add("payload>32k")
     nmsgs = sum(len(seg["c2s"]) + len(seg["s2c"]) for seg in case["segs"])
-    nontrivial = nmsgs >= 2 and (short_reads > 0 or rekeys >= 2 or comp_on or max_payload > 17)
+    nontrivial = nmsgs >= 2 and (short_reads > 0 or stats.get("timeout-inside-packet", 0) > 0 or rekeys >= 2 or comp_on or max_payload > 17)
     ctx.case(case, nontrivial, sorted(classes))
     if case.get("excluded"):
         ctx.exclude("p2ref|" + FINDING_STALE, case["excluded"])
